@@ -134,6 +134,31 @@ theorem queuer_deque_sound (c : CaseCfg) (hr : c.cfg.router = .q) (hrl : c.rl = 
   have h1 := d.d1 p hp (by simp) ha
   exact ⟨h1, d.sub _ h1⟩
 
+/-! ## One job at a time -/
+
+/-- (one at a time) a worker actor that is handling a job does not start another one: its task
+takes the next message only when no handler is running (this is the actor framework's C01, which
+the model takes as given: `running : Option Job`). Whatever the factory sends meanwhile waits in
+the actor's mailbox. -/
+theorem busy_worker_starts_nothing (e : Env) (aid : Nat) (a : Actor) (j : Job)
+    (ha : e.getActor aid = some a) (hr : a.running = some j) : e.settleOne aid = e := by
+  unfold Env.settleOne
+  simp [ha, hr]
+
+/-- … and a hand-over to a busy worker only lengthens its mailbox -/
+theorem cast_to_busy_queues (e e' : Env) (aid : Nat) (j : Job) (h : e.cast aid j = some e') :
+    e'.log = e.log ∧ ∃ a, e.getActor aid = some a ∧ a.alive = true := by
+  unfold Env.cast at h
+  cases ha : e.getActor aid with
+  | none => simp [ha] at h
+  | some a =>
+    simp only [ha] at h
+    split at h
+    · simp at h
+    · rename_i hal
+      simp only [Option.some.injEq] at h; subst h
+      exact ⟨rfl, a, rfl, by simpa using hal⟩
+
 /-! ### Findings on their concrete witnesses (the model replays them exactly: DIFF = 0 on every run)
 
 F4 — the full affinity statement ("never in progress on two workers") is FALSE of the code. -/
@@ -204,3 +229,5 @@ end C14
 #print axioms C14.kp_routes_to_holder
 #print axioms C14.queuer_never_idles
 #print axioms C14.queuer_deque_sound
+#print axioms C14.busy_worker_starts_nothing
+#print axioms C14.cast_to_busy_queues
